@@ -18,6 +18,11 @@ func genConfig(rng *vrt.Rand, small bool) Config {
 	c := Config{}
 	c.Index = int8(rng.Range(1, 3))
 	c.Shards = shardNums[rng.Intn(len(shardNums))]
+	// a skip-list index seeds one PRNG per shard (~50us each): 1000 shards make every Open cost ~50 ms, so that
+	// combination is kept rare (it is still drawn, so it is still covered)
+	if c.Index == 2 && c.Shards > 16 && !rng.Chance(0.05) {
+		c.Shards = shardNums[rng.Intn(5)]
+	}
 	c.IO = byte(rng.Intn(2))
 	if small {
 		c.FileSize = fileSizes[rng.Intn(6)]
@@ -652,6 +657,120 @@ func init() {
 			}
 			lastMerge = op.K == "merge"
 			return op
+		}
+	}
+}
+
+func crashBudget(c *Case, rng *vrt.Rand, tier string, power bool) {
+	// mmap images cost several times more (512 MiB sparse files mapped and unmapped per Open): a third of the runs
+	if c.Cfg.IO == 1 && rng.Chance(0.5) {
+		c.Cfg.IO = 0
+	}
+	if !power {
+		return
+	}
+	if tier == "thorough" {
+		c.PowerPct = 100
+		c.Cuts = rng.Range(2, 6)
+	} else {
+		c.PowerPct = 40
+		c.Cuts = rng.Range(1, 4)
+	}
+}
+
+func init() {
+	// C03: crash recovery exposes a prefix (plain workload: no batches, no merges)
+	generators["C03"] = func(c *Case, rng *vrt.Rand, tier string) func(r *Runner, i int) *Op {
+		c.Arm = "crash"
+		c.Cfg = genConfig(rng, rng.Chance(0.6))
+		crashBudget(c, rng, tier, true)
+		s := newSwarm(rng, []string{"put", "del", "sync", "restart", "get"}, 25)
+		s.W["put"] += 6
+		s.W["del"] += 1
+		if s.W["restart"] > 2 {
+			s.W["restart"] = 2
+		}
+		s.ValW[5] = min(s.ValW[5], 1)
+		if s.Steps > 25 {
+			s.Steps = 25
+		}
+		return s.genPlain(rng, restartCfgFn(c, rng, true, 0.3))
+	}
+	// C04: batches under crashes
+	generators["C04"] = func(c *Case, rng *vrt.Rand, tier string) func(r *Runner, i int) *Op {
+		c.Arm = "crash"
+		c.Cfg = genConfig(rng, rng.Chance(0.7))
+		crashBudget(c, rng, tier, true)
+		s := newSwarm(rng, []string{"put", "del", "batch", "restart", "merge", "sync"}, 16)
+		s.W["batch"] += 8
+		s.W["put"] += 2
+		if s.W["merge"] > 1 {
+			s.W["merge"] = 1
+		}
+		if s.W["restart"] > 2 {
+			s.W["restart"] = 2
+		}
+		s.ValW[5] = 0
+		if s.Steps > 16 {
+			s.Steps = 16
+		}
+		plain := s.genPlain(rng, func() *Config { cfg := c.Cfg; return &cfg })
+		return func(r *Runner, i int) *Op {
+			op := plain(r, i)
+			if op != nil && op.K == "batch" {
+				// batches of 1..30 staged operations without reads, some exceeding DataFileSize
+				nb := s.genBatch(rng, r, rng.Pick([]int{0, 4, 3, 2, 1, 1}) * 5 + 1, false)
+				nb.Dt = op.Dt
+				return nb
+			}
+			return op
+		}
+	}
+	// C07: crash during merge or adoption
+	generators["C07"] = func(c *Case, rng *vrt.Rand, tier string) func(r *Runner, i int) *Op {
+		c.Arm = "crash"
+		c.Cfg = genConfig(rng, rng.Chance(0.8))
+		crashBudget(c, rng, tier, false)
+		s := newSwarm(rng, []string{"put", "del", "batch"}, 14)
+		s.W["put"] += 5
+		s.ValW[5] = 0
+		s.ValW[6] = min(s.ValW[6], 1)
+		n := rng.Range(2, 12)
+		plain := s.genPlain(rng, func() *Config { cfg := c.Cfg; return &cfg })
+		phase := 0
+		return func(r *Runner, i int) *Op {
+			if i < n {
+				s.Steps = n + 10
+				if op := plain(r, i); op != nil {
+					return op
+				}
+			}
+			phase++
+			switch phase {
+			case 1:
+				return &Op{K: "merge", Dt: 1000000}
+			case 2:
+				if rng.Chance(0.4) {
+					k := s.key(rng)
+					return &Op{K: "put", Key: k, Val: s.val(rng, r, len(k)), Dt: 2000000}
+				}
+				return &Op{K: "del", Key: s.key(rng), Dt: 2000000}
+			case 3:
+				cfg := c.Cfg
+				if rng.Chance(0.3) {
+					cfg = genConfig(rng, true)
+				}
+				return &Op{K: "restart", Cfg: &cfg, Dt: 1000000}
+			case 4:
+				if rng.Chance(0.5) {
+					return &Op{K: "merge", Dt: 1000000}
+				}
+				return nil
+			case 5:
+				cfg := c.Cfg
+				return &Op{K: "restart", Cfg: &cfg, Dt: 1000000}
+			}
+			return nil
 		}
 	}
 }
